@@ -135,9 +135,15 @@ def run_rot(ctx, rng, idx):
     hb = BOUNDS[int(rng.integers(0, 3))]
     widest = max(hb[i + 1] - hb[i] for i in range(len(hb) - 1))
     bmax = (360 - widest) / 2.0
-    bk = int(rng.integers(0, 5))
+    bk = int(rng.integers(0, 6))
+    # bmax itself (two-basin sets; the three-basin set's own range check
+    # refuses it): the widest basin widened on both sides closes up to the
+    # whole circle exactly, its two gates coincide, and it is never left
     b = [0, 15, float(rng.uniform(0, bmax) // 1), bmax - 1,
-         float(rng.uniform(0.5, bmax - 0.5))][bk]
+         float(rng.uniform(0.5, bmax - 0.5)),
+         bmax if len(hb) == 3 else bmax - 0.5][bk]
+    if b == bmax:
+        ctx.count('closing_buffer_cases')
     if rng.random() < 0.3:
         b = int(b)
     angles, kind = gen_angles(rng, hb, b)
